@@ -27,13 +27,14 @@ PlainTypes == { GNil, TBool, TInt, TFloat, TStr, GNilBy, GNilSl, GNilMp, GNilTSl
 SAB   == St(<<F(nA, TInt), F(nB, TStr)>>)                                            \* struct{A int64; B string}
 STag  == St(<<Tn(F(nA, TInt), <<110>>), F(nx, TInt), Dash(F(nB, TInt)), F(nC, TBool)>>)   \* A `json:"n"`; x; B `json:"-"`; C bool
 SQ    == St(<<Qs(F(nA, TInt)), Qs(F(nB, TBool)), Qs(F(nC, TStr)), Qs(Tn(F(nS, TFloat), <<102>>))>>)   \* `,string` on int, bool, string, float ("f")
+SQp   == St(<<Qs(F(nA, GNilP(TInt))), Qs(F(nB, GNilP(TStr))), Qs(F(nC, GNilP(GNilP(TInt))))>>)   \* `,string` on *int64, *string; ignored on **int64
 SQx   == St(<<Qs(F(nA, GNilSl)), F(nB, TInt)>>)                                      \* `,string` on a slice: ignored
 SEmb  == St(<<F(nC, TInt), Anon(nAb, St(<<F(nA, TInt), F(nx, TInt)>>)), F(nB, TInt)>>)   \* embedded struct: A promoted
 SPtr  == St(<<F(nA, GNilP(St(<<F(nB, TInt)>>))), F(nC, GNilP(TInt))>>)               \* A *struct{B int64}; C *int64
 SCont == St(<<F(nA, GNilTMp(TInt)), F(nB, GNilTSl(TInt)), F(nC, GNil), F(nS, GNilMp)>>)   \* map[string]int64, []int64, interface{}, map[string]interface{}
 SFold == St(<<F(nAk, TInt), F(nS, TInt), Tn(F(nB, TInt), <<97, 75>>)>>)              \* Ak, S, B `json:"aK"`
 SNest == St(<<F(nA, SAB), F(nB, GNilTSl(SAB))>>)                                     \* nested struct, slice of structs
-StructTypes == { SAB, STag, SQ, SQx, SEmb, SPtr, SCont, SFold, SNest, St(<<>>) }
+StructTypes == { SAB, STag, SQ, SQp, SQx, SEmb, SPtr, SCont, SFold, SNest, St(<<>>) }
 
 \* ---- JSON values ---------------------------------------------------------
 N(l) == Num(l)
@@ -66,8 +67,10 @@ FieldVals == { Null, Bool(TRUE), N(<<55>>), N(<<49,46,53>>), Str(<<97>>), Str(<<
                Arr(<<N(<<49>>), N(<<50>>)>>), Arr(<<N(<<49>>), Str(<<97>>)>>), Arr(<<>>),
                Obj(<<Mem(jB, N(<<51>>))>>), Obj(<<Mem(jA, N(<<49>>)), Mem(jB, Str(<<120>>))>>), Obj(<<Mem(ja, N(<<49>>)), Mem(jb, Str(<<120>>))>>),
                Arr(<<Obj(<<Mem(jA, N(<<49>>))>>), Obj(<<Mem(jB, N(<<50>>))>>)>>) }
-\* values a repeated member may meet (no arrays: decoding over the elements of an existing slice is not modelled)
-DupVals == { Null, N(<<55>>), Str(<<97>>), Obj(<<Mem(jB, N(<<51>>))>>), Obj(<<Mem(ja, N(<<49>>)), Mem(jb, Str(<<120>>))>>), Obj(<<Mem(jC, N(<<52>>))>>) }
+\* values a repeated member may meet first (the arrays are as long as the longest array of FieldVals: growing a non-empty
+\* slice is not modelled)
+DupVals == { Null, N(<<55>>), Str(<<97>>), Obj(<<Mem(jB, N(<<51>>))>>), Obj(<<Mem(ja, N(<<49>>)), Mem(jb, Str(<<120>>))>>), Obj(<<Mem(jC, N(<<52>>))>>),
+             Arr(<<N(<<55>>), N(<<49,101,52,48,48>>)>>), Arr(<<Obj(<<Mem(jA, N(<<57>>)), Mem(jB, Str(<<122>>))>>), Str(<<97>>)>>) }
 Objs1 == { Obj(<<Mem(k, v)>>) : k \in Names, v \in FieldVals }
 Objs2 == { Obj(<<Mem(k1, v1), Mem(k2, v2)>>) : k1 \in {jA, ja, jB, jn, jAb}, k2 \in {jA, jB, jC, jx}, v1 \in DupVals, v2 \in FieldVals }
 Objs3 == { Obj(<<Mem(jA, v1), Mem(jB, v2), Mem(ja, v3)>>) : v1 \in DupVals, v2 \in {N(<<55>>), Str(<<97>>)}, v3 \in DupVals }
@@ -97,14 +100,10 @@ ResD == DecoderDecode(c[1], c[2])
 \* the result of decoding into a T is a T
 TypeKept == HasType(c[1], Res.v) /\ HasType(c[1], ResD.v)
 \* a text without repeated names that decodes without error is a fixpoint: decoding it again into the result changes nothing
-\* (results holding a non-empty typed slice are left out: decoding over existing elements is not modelled)
-RECURSIVE HasTSl(_)
-HasTSl(v) == CASE v.g = "tslice" -> v.e # <<>>
-               [] v.g = "ptr"    -> ~v.nil /\ HasTSl(v.v)
-               [] v.g = "struct" -> \E i \in 1..Len(v.f) : HasTSl(v.f[i].v)
-               [] OTHER          -> FALSE
-Stable == (Res.e = "" /\ NoDupKeys(c[2])) => (HasTSl(Res.v) \/ Dec(c[1], Res.v, c[2], TRUE) = Res)
+Stable == (Res.e = "" /\ NoDupKeys(c[2])) => Dec(c[1], Res.v, c[2], TRUE) = Res
 \* null at the top never fails and gives the zero value
+\* every case of this universe is inside what GoDec models
+Modelled == Res.e # "dc" /\ ResD.e # "dc"
 NullIsZero == c[2] = Null => Res = R(c[1], "")
 \* UseNumber matters for what an interface{} ends up holding and for nothing else
 RECURSIVE NoIface(_)
